@@ -765,7 +765,9 @@ def rules(tier):
             # C01-db: on an exact tie neither parent adopts (< became <=): the child and its sub-tree are never emitted
             ('C01.R16', _shared_rule('c02', 'r1_adoption_kernel')),
             # C01-da: the saved queue position written with 15 significant digits no longer round-trips
-            ('C01.R17', _shared_rule('plumbing', 'float_text_exact'))]
+            ('C01.R17', _shared_rule('plumbing', 'float_text_exact')),
+            # mutation sweep: next() returning None with one item left
+            ('C01.R18', _shared_rule('plumbing', 'generator_glue'))]
 
 
 META = {
